@@ -671,20 +671,33 @@ pub fn mate(args: &[String]) -> i32 {
     let mut w = std::io::BufWriter::new(std::fs::File::create(&out_path).unwrap());
     let (mut n1, mut nd) = (0usize, 0usize);
     let hunt = args.iter().any(|a| a == "--hunt");
-    let answer = |b: &Board, depths: &[u8]| -> Vec<Value> {
-        depths
-            .iter()
-            .map(|&d| {
-                match catch_unwind(AssertUnwindSafe(|| {
+    // the same position with other move counters is the same position for C08 (a mate delivered on the hundredth
+    // reversible half-move is still a mate): every candidate is also searched with the counters 99 / 80 and 50 / 40
+    let answer = |b0: &Board, depths: &[u8]| -> Vec<Value> {
+        let mut out = Vec::new();
+        let base = proj::project(b0);
+        for (hm, fm) in [(-1i32, 0i32), (99, 80), (50, 40)] {
+            let bv: Board = if hm < 0 {
+                b0.clone()
+            } else {
+                match catch_unwind(AssertUnwindSafe(|| Board::new(&format!("{} {} {}", base, hm, fm)))) {
+                    Ok(x) if proj::project(&x) == base => x,
+                    _ => continue,
+                }
+            };
+            let b = &bv;
+            for &d in depths {
+                out.push(match catch_unwind(AssertUnwindSafe(|| {
                     let mut s = Searcher::new();
                     let (score, mv) = s.find_best_move(b, d, None);
                     (clamp(score), mv.map(|m| proj::move_text(&m)).unwrap_or_else(|| "-".into()))
                 })) {
-                    Ok((sc, mv)) => json!([d, mv, sc]),
-                    Err(_) => json!([d, "panic", 0]),
-                }
-            })
-            .collect()
+                    Ok((sc, mv)) => json!([d, mv, sc, hm]),
+                    Err(_) => json!([d, "panic", 0, hm]),
+                });
+            }
+        }
+        out
     };
     let mut emit = |b: &Board, w: &mut std::io::BufWriter<std::fs::File>, n1: &mut usize, nd: &mut usize, force: bool| {
         // the engine's move generator only PROPOSES candidates; TLC recomputes everything
